@@ -22,7 +22,7 @@ def replay(job):
     conf, seed = job
     tool = conf["vcs"]
     with drive.scratch_dir("c10") as d:
-        proj = project.Project(os.path.join(d, "p"), vcs=tool)
+        proj = project.Project(os.path.join(d, "p"), vcs=tool, gitfile=(seed % 4 == 1))       # every fourth project is a linked worktree / submodule checkout
         fdir = os.path.join(d, "fake")
         fv = fakevcs.FakeVCS(fdir, tool)
         if tool == "git":
@@ -47,7 +47,7 @@ def replay(job):
         proj.write("a.txt", "version %s\n" % OLD)
         proj.write("b.txt", "x\nv=%s\n" % OLD)
         proj.write("other.txt", "unrelated\n")
-        args = ["update"] + (["--set-version", "1.2.4"] if conf["unique"] else ["--patch"]) + (["--ignore-vcs-tag"] if conf["ignore"] else [])
+        args = ["update"] + ([["-v"], ["-vv"]][seed % 2] if seed % 6 == 0 else []) + (["--set-version", "1.2.4"] if conf["unique"] else ["--patch"]) + (["--ignore-vcs-tag"] if conf["ignore"] else [])
         for flag, key in (("commit", "fcommit"), ("tag-commit", "ftag"), ("push", "fpush")):
             if conf[key] == "yes":
                 args.append("--" + flag)
